@@ -2,7 +2,7 @@
    Property theorems only; lemmas are in Proofs/KernelSnap.v, the executable
    model in Model/KernelSnap.v is run against the real node and store by
    harness/cmd/c16. *)
-From Coq Require Import List ZArith NArith Bool.
+From Coq Require Import List ZArith NArith Bool Lia.
 Require Import Mixin.Base.Res Mixin.Gen.Consts Mixin.Model.Fixed Mixin.Model.KernelSnap Mixin.Proofs.KernelSnap.
 Import ListNotations.
 Open Scope Z_scope.
@@ -123,3 +123,98 @@ Qed.
 
 Example nv_write_ok : is_ok (write_snapshot nv_state nv_snap) = true.
 Proof. vm_compute. reflexivity. Qed.
+
+(* ---- the validation facts derived from validate_batch ------------------------- *)
+
+(* Each fact C16_outside consumes is now derived from an accepting
+   validate_batch (Proofs/KernelSnap.v): body stored under its hash
+   (persist_tx_spec), every output key bound to the member (bind_ghosts_spec),
+   output amounts positive and output types script / submit / claim
+   (type_specific_outs, outputs_shape_facts), at most SliceCountLimit outputs
+   (validate_tx_true), a claim's reference stored and finalized (refs_ok_in),
+   deposit/mint amount positive and asset info unrecorded-or-equal / asset
+   recorded (validate_tx_ready), not yet recorded for this node.  They are
+   stable under the later members' validation (ready_vmono).  Left as
+   hypotheses are exactly:
+   - the capacity sum: validation cannot establish it (it reads only the
+     recorded total, one member at a time): recorded finding 1 (F5);
+   - deposits of one asset id agree on the asset info: validation compares only
+     with the recorded info: recorded finding 2;
+   - withdrawals within the recorded total: not checked by validation; follows
+     from the supply invariant (C17) since members spend distinct unspent outputs;
+   and well-formedness: ledger invariants of the state ([ledger_inv]: XIN
+   recorded, every unspent output's asset recorded, totals non-negative,
+   UNIQUE records only for stored bodies), the cache keyed by payload hash, no
+   duplicate member (the snapshot encoder refuses one).
+   PARTIAL in one respect: the members are not stored yet when the snapshot is
+   validated.  A member already stored by an earlier refused snapshot is taken
+   as is by validateSnapshotTransaction (not validated again): its facts come
+   from that earlier validation and are not derived here (its capacity and
+   asset info checks are stale, which the two recorded findings already cover;
+   the harness corpus has both cases). *)
+Theorem C16_validated_then_finalizes_partial : forall s sn pool last s',
+  ledger_inv s -> pool_keyed pool -> NoDup (ls_txs sn) ->
+  (forall h, In h (ls_txs sn) -> alookup h (st_bodies s) = None) ->
+  validate_batch s sn pool last = (s', true) ->
+  let ts := batch_txs pool (ls_txs sn) in
+  (forall a, total_of s a + sum_adds ts a <= capacity a) ->
+  infos_agree ts ->
+  (forall a, sum_subs ts a <= total_of s a) ->
+  exists s'', write_snapshot s' sn = Ok s''.
+Proof. exact c16_validated_then_finalizes. Qed.
+Print Assumptions C16_validated_then_finalizes_partial.
+
+(* the facts themselves, for every member of an accepted batch *)
+Theorem C16_validation_establishes_facts : forall s sn pool last s',
+  ledger_inv s -> pool_keyed pool -> NoDup (ls_txs sn) ->
+  (forall h, In h (ls_txs sn) -> alookup h (st_bodies s) = None) ->
+  validate_batch s sn pool last = (s', true) ->
+  map l_hash (batch_txs pool (ls_txs sn)) = ls_txs sn /\
+  forall t, In t (batch_txs pool (ls_txs sn)) ->
+    alookup (l_hash t) (st_bodies s') = Some t /\ ready s' t.
+Proof.
+  intros s sn pool last s' LI PK ND Fr Hv. unfold validate_batch in Hv.
+  destruct (validate_loop_ready _ _ _ _ _ _ _ Hv (li_v _ LI) PK ND Fr) as (_ & E & H).
+  split; assumption.
+Qed.
+Print Assumptions C16_validation_establishes_facts.
+
+(* non-vacuity: the genesis state and the two deposits that fill the capacity
+   exactly satisfy every hypothesis *)
+Definition nv_pool := [(121%N, nv_d1); (122%N, nv_d2)].
+
+Example nv_ledger_inv : ledger_inv w_state.
+Proof.
+  constructor.
+  - constructor; [vm_compute; discriminate|]. intros h i u H. vm_compute in H. discriminate H.
+  - intros a. unfold total_of. change (st_totals w_state) with [(xin, units 94773)]. cbn [alookup].
+    destruct (a =? xin)%N; [vm_compute; discriminate|lia].
+  - intros h H. vm_compute in H. discriminate H.
+Qed.
+
+Example nv_hypotheses_hold :
+  exists s'', write_snapshot nv_state nv_snap = Ok s''.
+Proof.
+  apply (C16_validated_then_finalizes_partial w_state nv_snap nv_pool w_last nv_state).
+  - exact nv_ledger_inv.
+  - intros h t H. unfold nv_pool in H. cbn [alookup] in H.
+    destruct (h =? 121)%N eqn:E1; [injection H as <-; apply N.eqb_eq in E1; subst h; reflexivity|].
+    destruct (h =? 122)%N eqn:E2; [injection H as <-; apply N.eqb_eq in E2; subst h; reflexivity|discriminate].
+  - repeat constructor; cbn; intuition discriminate.
+  - intros h _. reflexivity.
+  - exact nv_validated.
+  - intros a. change (batch_txs nv_pool (ls_txs nv_snap)) with [nv_d1; nv_d2].
+    unfold sum_adds, adds. cbn [fold_right l_asset l_in nv_d1 nv_d2 w_deposit].
+    destruct (xin =? a)%N eqn:E.
+    + apply N.eqb_eq in E. subst a. vm_compute. discriminate.
+    + assert (total_of w_state a = 0) as ->.
+      { unfold total_of. change (st_totals w_state) with [(xin, units 94773)]. cbn [alookup].
+        rewrite N.eqb_sym, E. reflexivity. }
+      unfold capacity. repeat match goal with |- context [if ?c then _ else _] => destruct c end;
+        vm_compute; discriminate.
+  - change (batch_txs nv_pool (ls_txs nv_snap)) with [nv_d1; nv_d2].
+    intros t1 t2 i1 i2 [<-|[<-|[]]] [<-|[<-|[]]] _ E1 E2; cbn in E1, E2; congruence.
+  - intros a. change (batch_txs nv_pool (ls_txs nv_snap)) with [nv_d1; nv_d2].
+    unfold sum_subs, subs. cbn [fold_right l_asset l_in nv_d1 nv_d2 w_deposit].
+    pose proof (li_totals _ nv_ledger_inv a). destruct (xin =? a)%N; lia.
+Qed.
